@@ -226,7 +226,20 @@ Lemma interp_ECall G f a : interp md GE G (ECall f a) =
    Ok (flat_map (fun c => repeat (snd c) (call_ways (fst c) al)) (funs_of bs))).
 Proof. reflexivity. Qed.
 Lemma interp_EBin G i op l r : interp md GE G (EBin i op l r) =
-  (li <- interp md GE G l ;; ri <- interp md GE G r ;; Ok (op_interps G op li ri)).
+  (if is_aggregate r then
+     if is_aggregate l then Ok [] else
+     li <- interp md GE G l ;;
+     match agg_type G op li with
+     | Some t => rootg G t r ;;; Ok [op_result op t]
+     | None => Ok []
+     end
+   else if is_aggregate l then
+     ri <- interp md GE G r ;;
+     match agg_type G op ri with
+     | Some t => rootg G t l ;;; Ok [op_result op t]
+     | None => Ok []
+     end
+   else li <- interp md GE G l ;; ri <- interp md GE G r ;; Ok (op_interps G op li ri)).
 Proof. reflexivity. Qed.
 Lemma interp_ENot G i e : interp md GE G (ENot i e) =
   (li <- interp md GE G e ;; Ok (filter (fun t => match t with SBool | SBit => true | _ => false end) li)).
@@ -636,6 +649,22 @@ Proof.
 Qed.
 Lemma op_interps_agree op li ri : Forall gd li -> Forall gd ri -> op_interps G op li ri = op_interps G' op li ri.
 Proof. intros Hl Hr. unfold op_interps. rewrite op_types_agree; [reflexivity|assumption|assumption]. Qed.
+Lemma agg_type_In H0 op li t : agg_type H0 op li = Some t -> In t li.
+Proof.
+  unfold agg_type. destruct (dedup (filter is_composite li)) as [|x [|? ?]] eqn:E; try discriminate.
+  destruct (op_class_ok op x && ops_visible H0 x); [|discriminate]. intros H. injection H as <-.
+  assert (Hx : In x (dedup (filter is_composite li))) by (rewrite E; left; reflexivity).
+  apply dedup_In in Hx. apply filter_In in Hx. tauto.
+Qed.
+Lemma agg_type_agree op li : Forall gd li -> agg_type G op li = agg_type G' op li.
+Proof.
+  intros Hl. unfold agg_type. destruct (dedup (filter is_composite li)) as [|x [|? ?]] eqn:E; try reflexivity.
+  rewrite ops_agree; [reflexivity|].
+  assert (Hx : In x (dedup (filter is_composite li))) by (rewrite E; left; reflexivity).
+  apply dedup_In in Hx. apply filter_In in Hx. rewrite Forall_forall in Hl. apply Hl. tauto.
+Qed.
+Lemma op_result_good op t : gd t -> gd (op_result op t).
+Proof. intros H. destruct op; cbn [op_result]; try exact H; exact I. Qed.
 Lemma op_interps_good op li ri : Forall gd li -> Forall gd ri -> Forall gd (op_interps G op li ri).
 Proof.
   intros Hl Hr. unfold op_interps. apply Forall_flat_map. apply Forall_forall. intros t Ht.
@@ -738,14 +767,42 @@ Proof.
     apply Forall_flat_map. apply Forall_forall. intros c Hc'. apply Forall_forall. intros t Ht.
     apply repeat_spec in Ht. subst t. eapply funs_of_good; [|exact Hc']. eapply callee_good; eassumption.
   - (* EBin *) intros i op l IHl r IHr Fr. cbn [oc_expr] in Fr. frs.
-    destruct (IHl Fr0) as [Il [Gl _]]. destruct (IHr Fr1) as [Ir [Gr _]].
+    destruct (IHl Fr0) as [Il [Gl [_ Rl]]]. destruct (IHr Fr1) as [Ir [Gr [_ Rr]]].
+    assert (Rl' : forall t, root_gen md (interp md GE G) (root_fields md GE G) (root_elems md GE G) (blame md GE G) t l =
+                            root_gen md (interp md GE G') (root_fields md GE G') (root_elems md GE G') (blame md GE G') t l)
+      by exact Rl.
+    assert (Rr' : forall t, root_gen md (interp md GE G) (root_fields md GE G) (root_elems md GE G) (blame md GE G) t r =
+                            root_gen md (interp md GE G') (root_fields md GE G') (root_elems md GE G') (blame md GE G') t r)
+      by exact Rr.
     assert (Hi : interp md GE G (EBin i op l r) = interp md GE G' (EBin i op l r)).
-    { cbn_sem. rewrite <- Il, <- Ir. destruct (interp md GE G l) as [li|] eqn:El; [|reflexivity].
-      destruct (interp md GE G r) as [ri|] eqn:Er; [|reflexivity]. cbn [bind]. f_equal.
-      apply op_interps_agree; [apply Gl|apply Gr]; reflexivity. }
+    { cbn_sem. destruct (is_aggregate r).
+      - destruct (is_aggregate l); [reflexivity|]. rewrite <- Il.
+        destruct (interp md GE G l) as [li|] eqn:El; [|reflexivity]. cbn [bind].
+        rewrite <- (agg_type_agree op li (Gl _ eq_refl)). destruct (agg_type G op li); [|reflexivity].
+        rewrite Rr'. reflexivity.
+      - destruct (is_aggregate l).
+        + rewrite <- Ir. destruct (interp md GE G r) as [ri|] eqn:Er; [|reflexivity]. cbn [bind].
+          rewrite <- (agg_type_agree op ri (Gr _ eq_refl)). destruct (agg_type G op ri); [|reflexivity].
+          rewrite Rl'. reflexivity.
+        + rewrite <- Il, <- Ir. destruct (interp md GE G l) as [li|] eqn:El; [|reflexivity].
+          destruct (interp md GE G r) as [ri|] eqn:Er; [|reflexivity]. cbn [bind]. f_equal.
+          apply op_interps_agree; [apply Gl|apply Gr]; reflexivity. }
     assert (Hb : forall t, blame md GE G t (EBin i op l r) = blame md GE G' t (EBin i op l r)) by reflexivity.
     split; [exact Hi|]. split; [|split; [exact Hb|apply root_from; [exact Hi|exact Hb|discriminate]]].
-    cbn_sem. intros l0 E. minv E. injection E2 as <-. apply op_interps_good; [apply Gl|apply Gr]; assumption.
+    cbn_sem. intros l0 E. destruct (is_aggregate r).
+    + destruct (is_aggregate l); [injection E as <-; constructor|].
+      destruct (interp md GE G l) as [li|] eqn:El; cbn [bind] in E; [|discriminate E].
+      destruct (agg_type G op li) as [t|] eqn:Et; [|injection E as <-; constructor].
+      match type of E with bind ?x _ = _ => destruct x; cbn [bind] in E; [|discriminate E] end.
+      injection E as <-. constructor; [|constructor]. apply op_result_good.
+      specialize (Gl _ eq_refl). rewrite Forall_forall in Gl. apply Gl. eapply agg_type_In; exact Et.
+    + destruct (is_aggregate l).
+      * destruct (interp md GE G r) as [ri|] eqn:Er; cbn [bind] in E; [|discriminate E].
+        destruct (agg_type G op ri) as [t|] eqn:Et; [|injection E as <-; constructor].
+        match type of E with bind ?x _ = _ => destruct x; cbn [bind] in E; [|discriminate E] end.
+        injection E as <-. constructor; [|constructor]. apply op_result_good.
+        specialize (Gr _ eq_refl). rewrite Forall_forall in Gr. apply Gr. eapply agg_type_In; exact Et.
+      * minv E. injection E2 as <-. apply op_interps_good; [apply Gl|apply Gr]; assumption.
   - (* ENot *) intros i e IH Fr. cbn [oc_expr] in Fr. destruct (IH Fr) as [Ie [Ge _]].
     assert (Hi : interp md GE G (ENot i e) = interp md GE G' (ENot i e)) by (cbn_sem; rewrite Ie; reflexivity).
     assert (Hb : forall t, blame md GE G t (ENot i e) = blame md GE G' t (ENot i e)) by reflexivity.
